@@ -35,6 +35,12 @@ def run(R, job):
             outer_log.append(v)
             if raising_base and isinstance(v, core.Tag):
                 raise HookBoom()
+        if it % 7 == 6:
+            class FalsyHook(list):
+                "a callable hook object that is falsy (an empty recorder)"
+                def __call__(self, v): base_fn(v)
+            base_fn = base
+            base = FalsyHook()
         saved = sys.displayhook
         sys.displayhook = base
         tags = [core.Tag("div") for _ in range(4)]
